@@ -202,7 +202,99 @@ theorem properGroups_none_iff (lp li rp ri : Bool) :
 theorem properGroups_keeps_proper (li ri : Bool) : properGroups true li true ri = some (.self, .self) := by
   simp [properGroups]
 
+/-! ### the difference `O₁ − O₂` (C04: "the angle of the difference") -/
+
+/-- all operations of the list are proper -/
+def AllProper (G : List (Rot ℝ)) : Prop := ∀ g ∈ G, g.improper = false
+
+/-- `Re(g₁ (O₁ O₂*) g₂) = (g₁O₁)·(g₂* O₂)` -/
+theorem re_image_eq_dot (g1 O1 O2 g2 : Quat ℝ) :
+    (Quat.mul (Quat.mul g1 (Quat.mul O1 (Quat.conj O2))) g2).a
+      = Quat.dot (Quat.mul (Quat.conj g2) O2) (Quat.mul g1 O1) := by
+  simp only [Quat.mul, Quat.conj, Quat.dot]; ring
+
+theorem abs_re_image_pm {g1 O1 O2 g2 s : Quat ℝ} (hs : s = Quat.conj g2 ∨ s = Quat.neg (Quat.conj g2)) :
+    |(Quat.mul (Quat.mul g1 (Quat.mul O1 (Quat.conj O2))) g2).a| = |Quat.dot (Quat.mul s O2) (Quat.mul g1 O1)| := by
+  rw [re_image_eq_dot]
+  rcases hs with h | h
+  · rw [h]
+  · rw [h]
+    have : Quat.dot (Quat.mul (Quat.neg (Quat.conj g2)) O2) (Quat.mul g1 O1)
+        = - Quat.dot (Quat.mul (Quat.conj g2) O2) (Quat.mul g1 O1) := by
+      simp only [Quat.mul, Quat.conj, Quat.dot, Quat.neg]; ring
+    rw [this, abs_neg]
+
+/-- THE DIFFERENCE `O₁ − O₂` (C04's clause "the angle of the difference"): over the orbit `g₁·(O₁O₂*)·g₂` of the
+misorientation `O₁·O₂⁻¹` under two proper groups, the largest `|Re|` IS the brute-force maximal dot product over pairs of
+equivalent orientations. -/
+theorem difference_maxre_eq_bruteDot {G1 G2 : List (Rot ℝ)} (h1 : AllProper G1) (h2 : AllProper G2)
+    (hG2 : IsRotGroup G2) (O1 O2 : Rot ℝ) (hO : O1.improper = O2.improper) :
+    maxL ((images (G1.map (·.q)) (G2.map (·.q)) (Quat.mul O1.q (Quat.conj O2.q))).map fun z => |z.a|)
+      = C04.bruteDot G1 G2 O1 O2 := by
+  have flag : ∀ g1 ∈ G1, ∀ s ∈ G2, xor (xor s.improper O2.improper) (xor g1.improper O1.improper) = false := by
+    intro g1 hg1 s hs
+    rw [h1 g1 hg1, h2 s hs, hO]; cases O2.improper <;> rfl
+  unfold C04.bruteDot
+  apply maxL_eq_of_cofinal
+  · intro v hv
+    obtain ⟨z, hz, rfl⟩ := List.mem_map.mp hv
+    unfold images at hz
+    obtain ⟨q1, hq1, hz'⟩ := List.mem_flatMap.mp hz
+    obtain ⟨q2, hq2, rfl⟩ := List.mem_map.mp hz'
+    obtain ⟨g1, hg1, rfl⟩ := List.mem_map.mp hq1
+    obtain ⟨g2, hg2, rfl⟩ := List.mem_map.mp hq2
+    obtain ⟨s, hs, hsi, hsq⟩ := hG2.inv_mem g2 hg2
+    refine ⟨rdot (Rot.mul s O2) (Rot.mul g1 O1),
+      List.mem_map.mpr ⟨(g1, s), C04.mem_pairs.mpr ⟨hg1, hs⟩, rfl⟩, ?_⟩
+    have hf := flag g1 hg1 s hs
+    unfold rdot
+    simp only [Rot.mul, hf, cond_false]
+    rw [abs_re_image_pm (s := s.q) (by simpa [rconj] using hsq)]
+  · intro w hw
+    obtain ⟨p, hp, rfl⟩ := List.mem_map.mp hw
+    obtain ⟨hp1, hp2⟩ := C04.mem_pairs.mp hp
+    obtain ⟨s, hs, hsi, hsq⟩ := hG2.inv_mem p.2 hp2
+    refine ⟨|(Quat.mul (Quat.mul p.1.q (Quat.mul O1.q (Quat.conj O2.q))) s.q).a|, ?_, ?_⟩
+    · apply List.mem_map.mpr
+      refine ⟨_, ?_, rfl⟩
+      unfold images
+      exact List.mem_flatMap.mpr ⟨p.1.q, List.mem_map.mpr ⟨p.1, hp1, rfl⟩,
+        List.mem_map.mpr ⟨s.q, List.mem_map.mpr ⟨s, hs, rfl⟩, rfl⟩⟩
+    · have hf := flag p.1 hp1 p.2 hp2
+      unfold rdot
+      simp only [Rot.mul, hf, cond_false]
+      have hpq : p.2.q = Quat.conj s.q ∨ p.2.q = Quat.neg (Quat.conj s.q) := by
+        have hsq' : s.q = Quat.conj p.2.q ∨ s.q = Quat.neg (Quat.conj p.2.q) := by simpa [rconj] using hsq
+        rcases hsq' with h | h
+        · left; rw [h, conj_conj]
+        · right; rw [h]; cases p.2.q; simp [Quat.conj, Quat.neg]
+      rw [abs_re_image_pm (s := p.2.q) hpq]
+
+/-- COROLLARY (with C05's `reduce_minimal` hypotheses): the representative the reduction loop returns for `O₁ − O₂` has
+`|Re R|` equal to the brute-force maximal dot product, i.e. its rotation angle `2·arccos|Re R|` is the minimum over
+all pairs of symmetrically equivalent orientations. -/
+theorem difference_angle_is_brute_minimum {G1 G2 : List (Rot ℝ)} (h1 : AllProper G1) (h2 : AllProper G2)
+    (hG2 : IsRotGroup G2) (O1 O2 : Rot ℝ) (hO : O1.improper = O2.improper)
+    (inside : Quat ℝ → Bool) (R : Quat ℝ)
+    (h : firstInside inside (images (G1.map (·.q)) (G2.map (·.q)) (Quat.mul O1.q (Quat.conj O2.q))) = some R)
+    (hcover : ∃ y ∈ images (G1.map (·.q)) (G2.map (·.q)) (Quat.mul O1.q (Quat.conj O2.q)), inside y = true)
+    (hcell : ∀ y ∈ images (G1.map (·.q)) (G2.map (·.q)) (Quat.mul O1.q (Quat.conj O2.q)), inside y = true →
+      ∀ z ∈ images (G1.map (·.q)) (G2.map (·.q)) (Quat.mul O1.q (Quat.conj O2.q)), |z.a| ≤ |y.a|) :
+    |R.a| = C04.bruteDot G1 G2 O1 O2 := by
+  rw [← difference_maxre_eq_bruteDot h1 h2 hG2 O1 O2 hO]
+  have hm := firstInside_mem inside _ _ h
+  have hi := firstInside_inside inside _ _ h hcover
+  apply le_antisymm
+  · exact le_maxL_of_mem (List.mem_map.mpr ⟨R, hm, rfl⟩)
+  · apply maxL_le (abs_nonneg _)
+    intro v hv
+    obtain ⟨z, hz, rfl⟩ := List.mem_map.mp hv
+    exact hcell R hm hi z hz
+
+
 /-! non-vacuity -/
+example : AllProper [⟨Quat.one, false⟩] := by intro g hg; simp at hg; rw [hg]
+
 example : firstInside (fun n : Nat => decide (n > 2)) [1, 5, 7] = some 5 := by decide
 example : firstInside (fun n : Nat => decide (n > 9)) [1, 5, 7] = some 7 := by decide
 
